@@ -7,7 +7,7 @@ Two kinds:
   active gauge and the membership in the active-stream list move with it (`exec_cleanInv`) — whatever the append functions
   look like, whatever the sender returns, wherever resets land;
 * **for the REGENERATED programs** (exhaustive evaluation of the finite space reply shape × outcome vector × start state
-  × reset position up to the end of the op list, `good_bounded`; positions beyond the end do not change the op list,
+  × kind and position of the client's departure up to the end of the op list, `good_bounded`; positions beyond the end do not change the op list,
   `writeReply_late`): the clean-up runs at LEAST once, `endStream` follows the part that ends the stream, the worker
   returns.
 -/
@@ -37,8 +37,8 @@ theorem ops_length_le (r : Reply) : (ops genProgs r).length ≤ 16 := by
 
 /-- a reset position beyond the end of the op list is the position 17: the op list is unchanged (the reset reaches a
 stream whose worker has returned) -/
-theorem writeReply_late (r : Reply) (o : Outs) (rp : Nat) (s : RW) (h : 17 ≤ rp) :
-    writeReply genProgs r o rp s = writeReply genProgs r o 17 s := by
+theorem writeReply_late (r : Reply) (o : Outs) (rp : Nat) (vc : Bool) (s : RW) (h : 17 ≤ rp) :
+    writeReply genProgs r o rp vc s = writeReply genProgs r o 17 vc s := by
   have hl := ops_length_le r
   unfold writeReply
   rw [insertAt_beyond _ rp _ (by omega), insertAt_beyond _ 17 _ (by omega)]
@@ -46,8 +46,8 @@ theorem writeReply_late (r : Reply) (o : Outs) (rp : Nat) (s : RW) (h : 17 ≤ r
 /-! ### the regenerated programs: exhaustive evaluation -/
 
 /-- everything the property asks of one write, as one executable conjunction -/
-def good (r : Reply) (o : Outs) (rp : Nat) (cg ul : Bool) : Bool :=
-  let f := writeReply genProgs r o rp (start cg ul)
+def good (r : Reply) (o : Outs) (rp : Nat) (vc cg ul : Bool) : Bool :=
+  let f := writeReply genProgs r o rp vc (start cg ul)
   f.returned && f.cleaned && cleans f == 1 && decide (ends f ≤ 1) && endsAfterEos f.ev &&
   f.active == 0 && !f.listed && f.procDone &&
   -- the client stays: every part of the reply is handed to the sender, in order, the last one ends the stream, endStream follows once
@@ -56,17 +56,33 @@ def good (r : Reply) (o : Outs) (rp : Nat) (cg ul : Bool) : Bool :=
   (cg || r.hasBody || r.hasTrailers || rp == 0 || (f.ev.take 2 == [Ev.call .headers true o.h, Ev.endStream] && ends f == 1))
 
 set_option maxRecDepth 100000 in
-theorem good_bounded : ∀ hb ht oh od ot cg ul : Bool, ∀ rp, rp < 18 → good ⟨hb, ht⟩ ⟨oh, od, ot⟩ rp cg ul = true := by
+theorem good_bounded_00 : ∀ oh od ot vc cg ul : Bool, ∀ rp, rp < 18 → good ⟨false, false⟩ ⟨oh, od, ot⟩ rp vc cg ul = true := by
+  decide
+set_option maxRecDepth 100000 in
+theorem good_bounded_10 : ∀ oh od ot vc cg ul : Bool, ∀ rp, rp < 18 → good ⟨true, false⟩ ⟨oh, od, ot⟩ rp vc cg ul = true := by
+  decide
+set_option maxRecDepth 100000 in
+theorem good_bounded_01 : ∀ oh od ot vc cg ul : Bool, ∀ rp, rp < 18 → good ⟨false, true⟩ ⟨oh, od, ot⟩ rp vc cg ul = true := by
+  decide
+set_option maxRecDepth 100000 in
+theorem good_bounded_11 : ∀ oh od ot vc cg ul : Bool, ∀ rp, rp < 18 → good ⟨true, true⟩ ⟨oh, od, ot⟩ rp vc cg ul = true := by
   decide
 
-theorem good_all (r : Reply) (o : Outs) (rp : Nat) (cg ul : Bool) : good r o rp cg ul = true := by
+theorem good_bounded (hb ht oh od ot vc cg ul : Bool) (rp : Nat) (h : rp < 18) : good ⟨hb, ht⟩ ⟨oh, od, ot⟩ rp vc cg ul = true := by
+  cases hb <;> cases ht
+  · exact good_bounded_00 oh od ot vc cg ul rp h
+  · exact good_bounded_01 oh od ot vc cg ul rp h
+  · exact good_bounded_10 oh od ot vc cg ul rp h
+  · exact good_bounded_11 oh od ot vc cg ul rp h
+
+theorem good_all (r : Reply) (o : Outs) (rp : Nat) (vc cg ul : Bool) : good r o rp vc cg ul = true := by
   obtain ⟨hb, ht⟩ := r
   obtain ⟨oh, od, ot⟩ := o
   by_cases h : rp < 18
-  · exact good_bounded hb ht oh od ot cg ul rp h
-  · have h17 := good_bounded hb ht oh od ot cg ul 17 (by omega)
+  · exact good_bounded hb ht oh od ot vc cg ul rp h
+  · have h17 := good_bounded hb ht oh od ot vc cg ul 17 (by omega)
     unfold good at h17 ⊢
-    rw [writeReply_late _ _ rp _ (by omega)]
+    rw [writeReply_late _ _ rp _ _ (by omega)]
     have e1 : decide (rp < 17) = false := by simp; omega
     have e2 : (rp == 0) = false := by cases rp with
       | zero => omega
